@@ -332,8 +332,13 @@ def finding(case, out, failure):
         if any(not type_exact_eq(r, strip_subsec(r)) for r in rows) and 'different result' in (failure or ''):
             runs = out['runs']
             # what the first run returned (steps before the checkpoint included), with the sub-second parts dropped
-            want = [rows_enc(strip_subsec(rows_dec(x))) for x in runs[0]['rows']] if 'error' not in runs[0] else None
-            if all('error' not in r and (r['rows'] == runs[0]['rows'] or r['rows'] == want) for r in runs):
+            # (rows are dicts: a step that re-orders their keys before the checkpoint must not hide the recognition)
+            canon = lambda rws: [[sorted(r.items(), key=lambda kv: kv[0]) for r in rows_dec(x)] for x in rws]
+            ok_runs = [r for r in runs if 'error' not in r]
+            first = canon(ok_runs[0]['rows']) if ok_runs else None
+            want = [[sorted(strip_subsec(dict(r)).items(), key=lambda kv: kv[0]) for r in x] for x in first] if first is not None else None
+            if ok_runs and all(('error' in r) or type_exact_eq(canon(r['rows']), first) or type_exact_eq(canon(r['rows']), want) for r in runs) \
+                    and not any(o.startswith('fail') for o in case['history']) and all('error' not in r for r in runs):
                 return 'C07.subsecond_and_time_zone_lost'
     return None
 
